@@ -176,7 +176,31 @@ def case_history(shape, dx, dtype, depth):
                       extra={"bfs_states": res.states, "depth": res.depth_completed})
 
 
-CASES = {"basis": case_basis, "history": case_history}
+def case_sequence(shape, order, dtype):
+    """Construction history: solvers with the same shape / precision but different spacing built one
+    after the other in ONE process (with an unrelated solver in between); each must solve its own problem."""
+    dtype = np.dtype(dtype).type
+    shape = tuple(shape)
+    fails = []
+    n = int(np.prod(shape))
+    seq = [DXS[i] for i in order]
+    for k, dx in enumerate(seq):
+        solver = _mk(shape, dx, dtype)
+        if k == 0:
+            _mk(tuple(reversed(shape)), dx * 0.5, dtype)
+        A = neumann_matrix(shape, dx)
+        f = ((((np.arange(n) * 7 + k) % 11) - 5) / 3.0).astype(dtype).reshape(shape)
+        u = np.zeros(shape, dtype=dtype)
+        solver.solve(solution_field=u, rhs_field=f.copy())
+        t = f.astype(np.float64).ravel()
+        t = t - t.mean()
+        res = np.abs(A @ u.astype(np.float64).ravel() - t).max() if np.all(np.isfinite(u)) else np.inf
+        if not res <= _tol(dtype, shape) * np.abs(f).max():
+            fails.append(Fail(f"dim={len(shape)}:construction-history", "a solver built after another solver (same shape, different spacing) in the same process does not solve its Poisson problem", shape=shape, dx_sequence=seq, position=k, residual=float(res)))
+    return CaseResult(fails=fails, states=len(seq), transitions=len(seq), traces=len(seq), outcome=f"seq:{shape}:{order}")
+
+
+CASES = {"basis": case_basis, "history": case_history, "sequence": case_sequence}
 
 
 def run(r) -> None:
@@ -198,6 +222,8 @@ def run(r) -> None:
     depth = 3 if quick else 4
     hist = [dict(shape=sh, dx=DXS[(r.seed + len(sh)) % 3], dtype=dt, depth=depth) for sh in ((3, 4), (5, 2), (2, 3, 4), (3, 2, 2)) for dt in ("float64", "float32")]
     r.run_cases("history", "history", hist)
+    seqs = [dict(shape=sh, order=list(o), dtype=dt) for sh in ((4, 6), (3, 4, 5), (4, 4, 4)) for o in itertools.permutations(range(3)) for dt in ("float64", "float32")]
+    r.run_cases("construction-sequences", "sequence", seqs)
     r.bounds = {"shapes": f"{{{s2.start}..{s2.stop-1}}}^2, {{{s3.start}..{s3.stop-1}}}^3 + " + str([s for s in shapes if max(s) > 5][:9]), "spacings": DXS, "history_depth": depth}
     r.extra["rule"] = "basis: one state per right-hand side (all unit impulses + constant + dense) per shape/spacing/dtype; history: BFS states = bytes of all solver arrays"
     r.assumptions = ["LAPACK eigen-decomposition treated as opaque; residual tolerance 200 eps n_max^2 ||f||"]
